@@ -192,7 +192,7 @@ def merge(a, b, pa, pb):
     for k in ("states", "transitions", "traces_validated_against_impl", "evaluations"):
         cov[k] = a["coverage"].get(k, 0) + b["coverage"].get(k, 0)
     cov["samples"] = a["coverage"]["samples"][:2] + b["coverage"]["samples"][:2]
-    cov["rule"] = "STATIC HALF: " + a["coverage"]["rule"] + " || DYNAMIC HALF: " + b["coverage"]["rule"]
+    cov["rule"] = "HALF %s " % pa + a["coverage"]["rule"] + " || HALF %s " % pb + b["coverage"]["rule"]
     return {"verdicts": vs, "cases": cases, "level": a["level"], "coverage": cov,
             "assumptions": sorted(set(a["assumptions"]) | set(b["assumptions"]))}
 
@@ -211,7 +211,7 @@ def run_property(prop, seed, tier, replay=None):
     if prop == "C12":
         return merge(run_static(prop, seed, tier, None), run_package(prop, seed, tier, None), "static:", "pkg:")
     if prop == "C16":
-        return run_session(prop, seed, tier, None)
+        return merge(run_session(prop, seed, tier, None), run_package(prop, seed, tier, None), "sess:", "pkg:")
     if prop == "C13":
         return merge(run_static(prop, seed, tier, None), run_map(prop, seed, tier, None), "static:", "map:")
     if prop in MAP_PROPS:
